@@ -101,26 +101,6 @@ def view_of_st(st):
             "via": st["last"].get("via", ""), "http": st["last"].get("http", 0)}
 
 
-def projection(core):
-    """Canonical projection of a model state (Prunner!CoreState as JSON) - must produce the same string as
-    world.projection() in harness/driver/world.go for the corresponding observed state."""
-    jobs, running = core[2], core[5]
-    out = []
-    for i, j in enumerate(jobs):
-        if not j["present"]:
-            # a job that is not listed (purged, lost): nothing is reported about it; its runs may still be open
-            out.append("-:" + "".join("%d," % t for t in sorted(running[i])))
-            continue
-        le = j["lastErr"]
-        if le == "exit":
-            le = "other"
-        s = "%d%d%d%d:%s:" % (j["present"], j["started"], j["completed"], j["canceled"], le)
-        s += "".join(t["status"] + "," for t in j["rep"]) + ":"
-        s += "".join("%d," % t for t in sorted(running[i]))
-        out.append(s)
-    return ";".join(out)
-
-
 def plan(vers, edges, max_len=45, max_scripts=None, expectations=False):
     ids = {}
 
